@@ -51,7 +51,7 @@ def observe(cls, data, unit='', positive=False, suffixes=()):
     b = bytearray(data)
     out1, res, site1 = call(cls.parse_immutable, b)
     ev = {'ev': 'api', 'cls': cls.__module__.replace('cryptoparser.', '') + '.' + cls.__qualname__, 'unit': unit,
-          'len': len(data), 'positive': bool(positive), 'head': list(data[:260] if unit == 'SshBanner' else data[:12]),
+          'len': len(data), 'positive': bool(positive), 'must': False, 'head': list(data[:260] if unit == 'SshBanner' else data[:12]),
           'imm': {'out': out1, 'n': 0, 'unchanged': bytes(b) == data}, 'site': site1 or ''}
     obj = None
     d1 = None
